@@ -60,11 +60,48 @@ func yieldStmt(pos token.Pos) ast.Stmt {
 	}}
 }
 
+// pureArg: evaluating it later (in the child) gives the same value as at the go statement.
+func pureArg(e ast.Expr) bool {
+	switch e.(type) {
+	case *ast.BasicLit, *ast.FuncLit:
+		return true
+	case *ast.CompositeLit:
+		return false
+	}
+	return pure(e)
+}
+
+// R6: `go f(args)` -> simrt.Go(func() { f(args) }) when function and arguments are pure.
+func rewriteGo(g *ast.GoStmt) ast.Stmt {
+	fun := g.Call.Fun
+	if _, isLit := fun.(*ast.FuncLit); !isLit && !pure(fun) {
+		notes = append(notes, fmt.Sprintf("%s: go statement left alone (callee not pure)", fsetG.Position(g.Pos())))
+		return g
+	}
+	for _, a := range g.Call.Args {
+		if !pureArg(a) {
+			notes = append(notes, fmt.Sprintf("%s: go statement left alone (argument not pure)", fsetG.Position(g.Pos())))
+			return g
+		}
+	}
+	counts["R6_go"]++
+	return &ast.ExprStmt{X: &ast.CallExpr{
+		Fun: sel("simrt", "Go"),
+		Args: []ast.Expr{&ast.FuncLit{
+			Type: &ast.FuncType{Params: &ast.FieldList{}},
+			Body: &ast.BlockStmt{List: []ast.Stmt{&ast.ExprStmt{X: g.Call}}},
+		}},
+	}}
+}
+
 func withYields(list []ast.Stmt) []ast.Stmt {
 	out := make([]ast.Stmt, 0, 2*len(list))
 	for _, s := range list {
 		if !noYield[s] {
 			out = append(out, yieldStmt(s.Pos()))
+		}
+		if g, ok := s.(*ast.GoStmt); ok {
+			s = rewriteGo(g)
 		}
 		out = append(out, s)
 	}
@@ -120,9 +157,46 @@ func isSyncLock(info *types.Info, se *ast.SelectorExpr) (string, bool) {
 	return "", false
 }
 
+// isOnceDo reports whether se is the method Do of a sync.Once and whether its receiver expression is a pointer.
+func isOnceDo(info *types.Info, se *ast.SelectorExpr) (ok bool, ptr bool) {
+	s, found := info.Selections[se]
+	if !found || se.Sel.Name != "Do" {
+		return false, false
+	}
+	fn, isFn := s.Obj().(*types.Func)
+	if !isFn || fn.Pkg() == nil || fn.Pkg().Path() != "sync" {
+		return false, false
+	}
+	rt := fn.Type().(*types.Signature).Recv().Type()
+	if p, isP := rt.(*types.Pointer); isP {
+		rt = p.Elem()
+	}
+	named, isN := rt.(*types.Named)
+	if !isN || named.Obj().Name() != "Once" {
+		return false, false
+	}
+	_, ptr = info.TypeOf(se.X).Underlying().(*types.Pointer)
+	return true, ptr
+}
+
 func rewriteCall(info *types.Info, c *ast.CallExpr) {
 	se, ok := c.Fun.(*ast.SelectorExpr)
 	if !ok {
+		return
+	}
+	if once, ptr := isOnceDo(info, se); once && len(c.Args) == 1 {
+		if !pure(se.X) {
+			notes = append(notes, fmt.Sprintf("%s: sync.Once receiver not pure, left alone", fsetG.Position(c.Pos())))
+			return
+		}
+		var key ast.Expr = se.X
+		if !ptr {
+			key = &ast.UnaryExpr{Op: token.AND, X: se.X}
+		}
+		f := c.Args[0]
+		c.Fun = sel("simrt", "OnceDo")
+		c.Args = []ast.Expr{key, &ast.SelectorExpr{X: se.X, Sel: ast.NewIdent("Do")}, f}
+		counts["R1_once"]++
 		return
 	}
 	if name, ok := isSyncLock(info, se); ok && len(c.Args) == 0 {
@@ -231,6 +305,19 @@ func rewriteRange(info *types.Info, r *ast.RangeStmt) {
 
 var noYieldBlocks = map[*ast.BlockStmt]bool{}
 
+func driverRowsInterface(pkg *packages.Package) *types.Interface {
+	imp := pkg.Imports["database/sql/driver"]
+	if imp == nil || imp.Types == nil {
+		return nil
+	}
+	obj := imp.Types.Scope().Lookup("Rows")
+	if obj == nil {
+		return nil
+	}
+	iface, _ := obj.Type().Underlying().(*types.Interface)
+	return iface
+}
+
 func processFile(pkg *packages.Package, f *ast.File, path string) ([]byte, bool, error) {
 	info := pkg.TypesInfo
 	curFile = path
@@ -254,7 +341,35 @@ func processFile(pkg *packages.Package, f *ast.File, path string) ([]byte, bool,
 	}
 	// R2
 	skip := map[*ast.BlockStmt]bool{}
+	skipClause := map[ast.Node]bool{}
 	hasBody := false
+	// methods of types implementing database/sql/driver.Rows get no yields: database/sql calls
+	// them holding Rows.closemu, a real RWMutex that a cancelled context's watcher goroutine
+	// wants exclusively; a task parked there would stall the simulation (not the program)
+	if rowsIface := driverRowsInterface(pkg); rowsIface != nil {
+		for _, d := range f.Decls {
+			fd, ok := d.(*ast.FuncDecl)
+			if !ok || fd.Recv == nil || fd.Body == nil || len(fd.Recv.List) == 0 {
+				continue
+			}
+			rt := info.TypeOf(fd.Recv.List[0].Type)
+			if rt == nil {
+				continue
+			}
+			if types.Implements(rt, rowsIface) || types.Implements(types.NewPointer(rt), rowsIface) {
+				counts["R2_unyielded_driver_rows_methods"]++
+				ast.Inspect(fd.Body, func(n ast.Node) bool {
+					switch b := n.(type) {
+					case *ast.BlockStmt:
+						noYieldBlocks[b] = true
+					case *ast.CaseClause, *ast.CommClause:
+						skipClause[b] = true
+					}
+					return true
+				})
+			}
+		}
+	}
 	ast.Inspect(f, func(n ast.Node) bool {
 		switch b := n.(type) {
 		case *ast.SwitchStmt:
@@ -271,11 +386,17 @@ func processFile(pkg *packages.Package, f *ast.File, path string) ([]byte, bool,
 				b.List = withYields(b.List)
 			}
 		case *ast.CaseClause:
+			if skipClause[b] {
+				return true
+			}
 			if len(b.Body) > 0 {
 				hasBody = true
 			}
 			b.Body = withYields(b.Body)
 		case *ast.CommClause:
+			if skipClause[b] {
+				return true
+			}
 			if len(b.Body) > 0 {
 				hasBody = true
 			}
@@ -404,8 +525,8 @@ func main() {
 		b, _ := json.Marshal(map[string]any{"sites": sites, "counts": counts, "notes": notes})
 		_ = os.WriteFile(*sitesOut, b, 0o644)
 	}
-	fmt.Printf("instrument: %d files, %d yield sites, %d lock ops, %d bbolt.Open, %d map ranges (%d left native)\n",
-		nfiles, len(sites), counts["R1_locks"], counts["R3_boltopen"], counts["R5_maprange"], counts["R5_skipped"])
+	fmt.Printf("instrument: %d files, %d yield sites, %d lock ops, %d once.Do, %d go statements, %d bbolt.Open, %d map ranges (%d left native)\n",
+		nfiles, len(sites), counts["R1_locks"], counts["R1_once"], counts["R6_go"], counts["R3_boltopen"], counts["R5_maprange"], counts["R5_skipped"])
 	for _, n := range notes {
 		fmt.Println("instrument: note:", n)
 	}
